@@ -105,24 +105,24 @@ type bval struct {
 }
 
 type pmodel struct {
-	w        *World
-	tracked  map[*types.Var]string // bool fields -> location key
-	slices   map[*types.Var]string // slice fields -> ghost key "<name>Alloc"
-	idxOwn   *types.Var            // the own-index field
-	idxDeal  *types.Var            // the dealer-index field
-	cmap     *types.Var            // the complaints map field
-	recvFld  *types.Var            // complaint.received
-	ansFld   *types.Var            // complaint.answerReceived
-	checkFn  string                // name of the answered-complaint check (role-resolved)
-	noInline map[string]bool
+	w          *World
+	tracked    map[*types.Var]string // bool fields -> location key
+	slices     map[*types.Var]string // slice fields -> ghost key "<name>Alloc"
+	idxOwn     *types.Var            // the own-index field
+	idxDeal    *types.Var            // the dealer-index field
+	cmap       *types.Var            // the complaints map field
+	recvFld    *types.Var            // complaint.received
+	ansFld     *types.Var            // complaint.answerReceived
+	checkFn    string                // name of the answered-complaint check (role-resolved)
+	noInline   map[string]bool
 	instFields map[*types.Var]bool
-	rel      map[*ssa.Function]int
-	cur      *pstate // path state being executed (for valKey's iteration counts)
-	maxPaths int
-	inlineD  int
-	unroll   int
-	nframes  int
-	npaths   int
+	rel        map[*ssa.Function]int
+	cur        *pstate // path state being executed (for valKey's iteration counts)
+	maxPaths   int
+	inlineD    int
+	unroll     int
+	nframes    int
+	npaths     int
 }
 
 type pstate struct {
@@ -1130,7 +1130,6 @@ func (m *pmodel) explore(fn *ssa.Function, st AState) []PathOutcome {
 	return outs
 }
 
-
 // relevant: does the function (transitively) touch what the abstraction tracks — instance fields,
 // the processor callbacks, the complaints map?  Only such callees are inlined; the others are
 // opaque (their results are unconstrained, correlated (value, error) pairs are handled at the store).
@@ -1148,7 +1147,7 @@ func (m *pmodel) relevant(fn *ssa.Function) bool {
 	}
 	m.rel[fn] = 3
 	res := false
-	instrs(fn, func(ins ssa.Instruction) {
+	instrsFlat(fn, func(ins ssa.Instruction) {
 		switch x := ins.(type) {
 		case *ssa.FieldAddr:
 			if m.instFields[addrField(x)] {
